@@ -176,6 +176,63 @@ func allAltsNamed(c *Sexp) bool {
 	return ok
 }
 
+// resultWithError: can this term return a non-nil result together with an error?  (Optional does, when
+// its operand fails; the pass-through combinators hand both on.)
+func resultWithError(t *Sexp, env []*Sexp, seen map[int]bool) bool {
+	a := t.Args()
+	switch t.Head() {
+	case "opt":
+		return true
+	case "ref":
+		k := a[0].Int()
+		if seen[k] {
+			return false
+		}
+		seen[k] = true
+		return resultWithError(env[k], env, seen)
+	case "memo", "ltrim", "rtrim":
+		return resultWithError(a[1], env, seen)
+	}
+	return false
+}
+
+// hasNameOrSingleOverOptional: the structural signature of known finding D9
+func hasNameOrSingleOverOptional(c *Sexp) bool {
+	env := findArg(c, "env")
+	found := false
+	var walk func(t *Sexp)
+	walk = func(t *Sexp) {
+		switch t.Head() {
+		case "name":
+			if resultWithError(t.List[2], env, map[int]bool{}) {
+				found = true
+			}
+		case "single":
+			if resultWithError(t.List[1], env, map[int]bool{}) {
+				found = true
+			}
+		}
+		for _, x := range t.List {
+			if x.IsL {
+				walk(x)
+			}
+		}
+	}
+	for _, e := range env {
+		walk(e)
+	}
+	walk(findArg(c, "root")[0])
+	return found
+}
+
+var knownD9 = map[string]func(c *Sexp, o Outcome) bool{
+	"name-or-single-over-optional": func(c *Sexp, o Outcome) bool {
+		return hasNameOrSingleOverOptional(c) && (strings.Contains(o.OracleFail, "a derivation was lost") ||
+			strings.Contains(o.OracleFail, "although a derivation consumes the whole input") ||
+			strings.Contains(o.OracleFail, "the grammar derives the whole input"))
+	},
+}
+
 type parseOracle func(c *Sexp, obs parseObs) string
 
 func parseExec(oracle parseOracle, nontrivial func(c *Sexp, obs parseObs) bool) func(c *Sexp) Outcome {
@@ -322,7 +379,7 @@ func oracleC04(c *Sexp, obs parseObs) string {
 			return fmt.Sprintf("Sentence succeeded but the tree spans %d..%d, input is %d..%d", obs.node.Pos(), obs.node.ReaderPos(), tf.Pos(0), tf.Pos(tf.Len()))
 		}
 	}
-	return ""
+	return oracleSentenceIff(c, obs)
 }
 
 func oracleC06(named bool) parseOracle {
@@ -368,21 +425,22 @@ func oracleC02(c *Sexp, obs parseObs) string {
 }
 
 func init() {
-	core := genOpts{subMemo: 0.1, sentence: 0.6, maxRules: 3}
+	core := genOpts{subMemo: 0.1, sentence: 0.6, maxRules: 3, noSuppress: true, noNameSingle: true}
 	nontrivialLR := func(c *Sexp, obs parseObs) bool {
 		return obs.rec != nil && obs.rec.memoCalls-obs.rec.bodyTotal > 0 && obs.rec.maxDepth > 1
 	}
 	register(&Prop{
 		ID: "C01", Cmd: "parse",
-		Rule: "random certified grammars (1-3 nonterminals, memoized with probability 0.85, bodies over the whole combinator set biased to direct/indirect/hidden left recursion, nullable and cyclic rules) x inputs sampled from the grammar, mutated, or uniform; both root.Parse and parsley.Parse observables are compared with the Lean model. Non-trivial = a memoized parser was re-entered at the same position and at least one call was answered by curtailment or the cache; distinct = distinct case text.",
+		Rule:   "random certified grammars (1-3 nonterminals, memoized with probability 0.85, bodies over the whole combinator set biased to direct/indirect/hidden left recursion, nullable and cyclic rules) x inputs sampled from the grammar, mutated, or uniform; both root.Parse and parsley.Parse observables are compared with the Lean model. Non-trivial = a memoized parser was re-entered at the same position and at least one call was answered by curtailment or the cache; distinct = distinct case text.",
 		Count:  quickN(6000, 60000),
 		Gen:    genParseCase(core, 10),
-		Exec:   parseExec(nil, nontrivialLR),
+		Exec:   parseExec(oracleC01, nontrivialLR),
 		Shrink: shrinkParse,
+		Known:  knownD9,
 	})
 	register(&Prop{
 		ID: "C02", Cmd: "parse",
-		Rule: "random certified grammars as for C01 with longer inputs; probes inside every Memoize record the number of live activations per (parser, position) and abort when it exceeds remaining+2; activation maxima are compared with the model's ghost counter. Non-trivial = some memoized parser active more than once at one position.",
+		Rule:   "random certified grammars as for C01 with longer inputs; probes inside every Memoize record the number of live activations per (parser, position) and abort when it exceeds remaining+2; activation maxima are compared with the model's ghost counter. Non-trivial = some memoized parser active more than once at one position.",
 		Count:  quickN(5000, 50000),
 		Gen:    genParseCase(genOpts{subMemo: 0.15, sentence: 0.5, maxRules: 3}, 14),
 		Exec:   parseExec(oracleC02, func(c *Sexp, obs parseObs) bool { return obs.rec != nil && obs.rec.maxDepth > 1 }),
@@ -390,7 +448,7 @@ func init() {
 	})
 	register(&Prop{
 		ID: "C04", Cmd: "parse",
-		Rule: "random certified grammars, named and unnamed alternatives, memoized or not, SuppressError included; inputs mostly non-matching. Oracle: exactly one of node/error is non-nil; a Sentence result spans the whole input. Non-trivial = the parse failed, or succeeded with a Sentence root.",
+		Rule:  "random certified grammars, named and unnamed alternatives, memoized or not, SuppressError included; inputs mostly non-matching. Oracle: exactly one of node/error is non-nil; a Sentence result spans the whole input. Non-trivial = the parse failed, or succeeded with a Sentence root.",
 		Count: quickN(6000, 60000),
 		Gen: func(rng *rand.Rand, tier string, i int) *Sexp {
 			o := genOpts{subMemo: 0.1, sentence: 0.75, maxRules: 3, nameAlts: rng.Intn(3) == 0}
@@ -408,10 +466,11 @@ func init() {
 		},
 		Exec:   parseExec(oracleC04, func(c *Sexp, obs parseObs) bool { return obs.perr != nil || isSentenceRoot(c) }),
 		Shrink: shrinkParse,
+		Known:  knownD9,
 	})
 	register(&Prop{
 		ID: "C06", Cmd: "parse",
-		Rule: "random certified Sentence-rooted grammars over single-byte terminals without trims; half of the cases have every Any/Choice named; inputs mostly non-matching. Probes around every terminal and End record failing positions. Oracle: reported position <= furthest failing terminal, equal when every alternative is named; message form. Non-trivial = the parse failed at a position after the first byte.",
+		Rule:  "random certified Sentence-rooted grammars over single-byte terminals without trims; half of the cases have every Any/Choice named; inputs mostly non-matching. Probes around every terminal and End record failing positions. Oracle: reported position <= furthest failing terminal, equal when every alternative is named; message form. Non-trivial = the parse failed at a position after the first byte.",
 		Count: quickN(6000, 60000),
 		Gen: func(rng *rand.Rand, tier string, i int) *Sexp {
 			o := genOpts{subMemo: 0.1, sentence: 1, maxRules: 3, nameAlts: i%2 == 0, noSuppress: true, productive: 0.9}
